@@ -294,7 +294,7 @@ def judge(case):
     if r.cls in ("wall_timeout", "cpu_timeout", "spawn_error"):
         return {"inconclusive": r.cls}
     text = r.out
-    if "Did not compile successfully" in text and core.BANNER not in text:
+    if core.BANNER not in text and r.cls == "fail" and core.has_compile_diagnostics(text):
         return {"rejected": text[-500:]}
     if r.cls == "ok":
         if case["fail"] in OPTIONAL_FAILS:
